@@ -31,13 +31,12 @@ def run():
     # 2. binding: record the real code, validate against RFC 7693 in TLA+
     exe = vlib.build_harness('rx_blake')
     tr = os.path.join(vlib.WORK, 'c11.ndjson')
-    vlib.sh([exe, '--seed', str(ck.seed), '--tier', ck.tier, '--out', tr], timeout=300)
-    lines = [l for l in open(tr).read().splitlines() if l]
+    lines = vlib.run_harness([exe, '--seed', str(ck.seed), '--tier', ck.tier, '--out', tr], tr, timeout=300)
     res = vlib.validate_sharded('TraceBlake', 'TraceBlake.cfg', lines, 'c11', shards=16, timeout=1500)
     ck.add_traces('TraceBlake', res, 'one-shot / streaming / blake2b_long / commitment calls on the real code')
     ck.reject('TraceBlake', res, key_of)
     kinds = {}
-    for l in lines:
+    for l in [x for x in lines if '"e": "Crash"' not in x]:
         ev = json.loads(l)
         kinds[ev['e']] = kinds.get(ev['e'], 0) + 1
     ck.cov['event_kinds'] = kinds
